@@ -544,11 +544,38 @@ def step_bindings(fp, step):
     return b
 
 
+def rescale(G, factor):
+    """the caller edits the graph it owns between two models: every flow value multiplied by `factor`"""
+    for u, v, d in G.edges(data=True):
+        if "flow" in d:
+            d["flow"] = d["flow"] * factor
+    for v, d in G.nodes(data=True):
+        if "flow" in d:
+            d["flow"] = d["flow"] * factor
+
+
+def explains_flow(G, sol):
+    """do the returned routes and weights add up to the flow values the graph has NOW (edge-weighted input)?"""
+    key = "paths" if "paths" in sol else "walks"
+    got = {}
+    for r, w in zip(sol[key], sol["weights"]):
+        for e in zip(r[:-1], r[1:]):
+            got[e] = got.get(e, 0) + w
+    return all(abs(got.get((u, v), 0) - d["flow"]) <= 1e-6 for u, v, d in G.edges(data=True) if "flow" in d)
+
+
 def run_step(fp, step, pool):
     try:
-        m = K.build(fp, step["cls"], step_kwargs(fp, step, pool))
+        kw = step_kwargs(fp, step, pool)
+        m = K.build(fp, step["cls"], kw)
         m.solve()
-        return K.result_summary(step["cls"], m)
+        out = K.result_summary(step["cls"], m)
+        if step["cls"] in K.FLOW_DECOMP and out.get("solved") is True and not kw.get("elements_to_ignore") \
+                and kw.get("flow_attr_origin", "edge") == "edge":
+            sol = m.get_solution()
+            if isinstance(sol, dict) and "weights" in sol:
+                out["explains_current_flow"] = explains_flow(kw["G"], sol)
+        return out
     except Exception as e:
         return {"error": type(e).__name__}
 
@@ -561,7 +588,10 @@ def random_history(rng, family):
         feats = [f for f in ("options", "solver", "constraints", "ignore") if rng.random() < 0.6]
         if rng.random() < 0.35:
             feats.append("given_weights")
-        steps.append({"cls": cls, "features": feats, "dk": rng.choice([0, 0, 1, 2])})
+        st = {"cls": cls, "features": feats, "dk": rng.choice([0, 0, 1, 2])}
+        if steps and rng.random() < 0.3:
+            st["rescale"] = rng.choice([2, 3])          # the shared graph object is edited in place before this step
+        steps.append(st)
     return steps
 
 
@@ -570,9 +600,16 @@ def history_case(ctx, family, steps, suite="C18.history"):
     shared = pristine(family)
     got, want = [], []
     for st in steps:
+        if st.get("rescale"):
+            rescale(shared["G"], st["rescale"])
         got.append(run_step(fp, st, shared))
+    total = 1
     for st in steps:
-        want.append(run_step(fp, st, pristine(family)))
+        total *= st.get("rescale", 1)
+        fresh = pristine(family)
+        if total != 1:
+            rescale(fresh["G"], total)      # a fresh graph object with the values the shared one has at this step
+        want.append(run_step(fp, st, fresh))
     inp = {"family": family, "history": steps}
     diff = [i for i, (a, b) in enumerate(zip(got, want)) if a != b]
     ctx.rep.count(suite, inp, nontrivial=True, hist=[family, f"len={len(steps)}"] + (["differs"] if diff else []))
@@ -592,6 +629,8 @@ def history_case(ctx, family, steps, suite="C18.history"):
     # the shared objects themselves against the table's may-write set
     if may is not None:
         fresh = pristine(family)
+        if total != 1:
+            rescale(fresh["G"], total)
         changed = [j for j, r in enumerate(REFS) if K.differs(shared[r], K.snapshot(fresh[r]))]
         if not set(changed) <= set(may):
             ctx.disagree("K4.aliasing.history", inp, {"changed_refs": [REFS[j] for j in changed]},
@@ -734,6 +773,11 @@ def run(ctx):
     for fam, a, b in (("dag", "kLeastAbsErrors", "kLeastAbsErrors"), ("dag", "kMinPathError", "kLeastAbsErrors")):
         history_case(ctx, fam, [{"cls": a, "features": ["options", "given_weights"], "dk": 0},
                                 {"cls": b, "features": ["options"], "dk": 1}])
+    # the caller re-uses its graph object with new flow values (default options, i.e. the greedy route is active)
+    for a, b in (("kFlowDecomp", "kFlowDecomp"), ("MinFlowDecomp", "kFlowDecomp"), ("kFlowDecomp", "MinFlowDecomp")):
+        history_case(ctx, "dag", [{"cls": a, "features": [], "dk": 0}, {"cls": b, "features": [], "dk": 0, "rescale": 3}])
+    history_case(ctx, "cyc", [{"cls": "kFlowDecompCycles", "features": [], "dk": 0},
+                              {"cls": "MinFlowDecompCycles", "features": [], "dk": 0, "rescale": 2}])
     for it in range(ctx.n(40, 600)):
         fam = "cyc" if it % 2 else "dag"
         history_case(ctx, fam, random_history(rng, fam))
